@@ -7,17 +7,44 @@ macro_rules! props {
     ($(($id:literal, $m:ident)),* $(,)?) => {
         $(pub mod $m;)*
         pub fn run(ctx: &Ctx) -> bool {
+            let mdns = uses_logging(ctx.prop.as_str());
+            if mdns {
+                crate::engine::set_logging(false);
+            }
             match ctx.prop.as_str() {
                 $($id => $m::run(ctx),)*
                 _ => return false,
             }
+            if mdns {
+                // the library logs through the `log` facade: the same spaces once more with
+                // every logging statement evaluated
+                ctx.second_pass();
+                match ctx.prop.as_str() {
+                    $($id => $m::run(ctx),)*
+                    _ => return false,
+                }
+            }
             true
         }
         pub fn replay(prop: &str, case: &Value) -> Option<Vec<Finding>> {
-            Some(match prop {
-                $($id => $m::replay(case),)*
-                _ => return None,
-            })
+            let once = |prop: &str| -> Option<Vec<Finding>> {
+                Some(match prop {
+                    $($id => $m::replay(case),)*
+                    _ => return None,
+                })
+            };
+            if !uses_logging(prop) {
+                return once(prop);
+            }
+            crate::engine::set_logging(false);
+            let f = once(prop)?;
+            if !f.is_empty() {
+                return Some(f);
+            }
+            crate::engine::set_logging(true);
+            let f = once(prop);
+            crate::engine::set_logging(false);
+            f
         }
     };
 }
@@ -44,6 +71,12 @@ props!(
     ("C19", c19),
     ("C20", c20),
 );
+
+/// The simple-mdns properties: that crate logs through the `log` facade, whose process-wide
+/// level is part of the environment.
+fn uses_logging(prop: &str) -> bool {
+    matches!(prop, "C13" | "C14" | "C15" | "C16" | "C20")
+}
 
 pub fn finding(sig: impl Into<String>, detail: impl Into<String>, case: Value) -> Finding {
     Finding { sig: sig.into(), detail: detail.into(), case }
